@@ -1466,9 +1466,13 @@ pub fn run(seed: u64, tier: &str, outdir: &str) {
     for (ins, outs, class) in tx_cases(seed, tier) {
         let obs = eval_tx(&ins, &outs, &node);
         let op = format!("tx {} {}", list64(&ins), list64(&outs));
-        out.case(&op, &obs.answer);
-        out.count(&format!("tx:{}", class));
         let (si, so) = (sum128(&ins), sum128(&outs));
+        // canonical answer of a tree that checks the sums: a transaction refused while a true (u128) sum does not fit u64
+        // is the model's `reject-overflow` (the u64 totals such a tree leaves behind are not part of the contract)
+        let sums_checked = flags.contains("sums=1");
+        let answer = if sums_checked && !obs.panicked && !obs.accepted && (si >= M64 || so >= M64) { "reject-overflow".to_string() } else { obs.answer.clone() };
+        out.case(&op, &answer);
+        out.count(&format!("tx:{}", class));
         let feature = if so >= M64 { "output-sum-exceeds-u64" } else if si >= M64 { "input-sum-exceeds-u64" } else { "no-overflow" };
         if obs.panicked {
             out.count(&format!("tx-result:panic/{}", feature));
